@@ -83,7 +83,7 @@ def order_sources(fn, name, seen=None):
         if isinstance(e, (ast.SetComp, ast.DictComp, ast.Set, ast.Dict)):
             return False, None
         # views of a dictionary keep one entry per key: repeated inputs collapse (and the order is that of first insertion)
-        if isinstance(e, ast.Call) and isinstance(e.func, ast.Attribute) and e.func.attr in ('values', 'keys', 'items') and isinstance(e.func.value, ast.Name):
+        if isinstance(e, ast.Call) and isinstance(e.func, ast.Attribute) and e.func.attr in ('values', 'keys', 'items'):
             return False, None
         return None, None    # not understood
     for d in defs:
@@ -185,13 +185,29 @@ def check_stack_like(ctx, rp, q, listname, first_wins_target):
                 ctx.ok('R-ATTRFIRST', '%s:%s' % (q, norm(c)[:40]), where, 'attributes copied from %s before any loop re-binds it' % x)
     # the receiver comes first
     if fn.args.args and fn.args.args[0].arg == 'self':
-        for d in [st for st in iter_stmts(fn.body) if isinstance(st, ast.Assign) and any(isinstance(t, ast.Name) and t.id == listname for t in st.targets)]:
-            e = d.value
+        # the list as it stands when it is first iterated, on every path to that point, with its successive re-bindings substituted
+        from .. import paths as _paths
+        uses = [st for st in fn.body if isinstance(st, (ast.For, ast.Assign, ast.Expr)) and not (isinstance(st, ast.Assign) and any(isinstance(t, ast.Name) and t.id == listname for t in st.targets))
+                and any(isinstance(n, ast.Name) and n.id == listname and isinstance(n.ctx, ast.Load) for n in ast.walk(st.iter if isinstance(st, ast.For) else st.value))]
+        defs_ = [st for st in iter_stmts(fn.body) if isinstance(st, ast.Assign) and any(isinstance(t, ast.Name) and t.id == listname for t in st.targets)]
+        forms = {}
+        if uses:
+            stop = fn.body.index(uses[0])
+            for pth in _paths.enumerate_paths(fn.body[:stop], relevant=_paths.relevance(fn.body[:stop], defs_)):
+                if pth.exit[0] == 'raise':
+                    continue
+                res = _paths.expand(pth)
+                if res.feasible and listname in res.env:
+                    forms[norm(res.env[listname])] = res.env[listname]
+        if not forms:
+            forms = dict((norm(d.value), d.value) for d in defs_)
+        for txt, e in sorted(forms.items()):
             while isinstance(e, ast.BinOp):
                 e = e.left
             first = e.elts[0] if isinstance(e, ast.List) and e.elts else None
+            d = defs_[0] if defs_ else fn.body[0]
             if isinstance(first, ast.Name) and first.id == 'self':
-                ctx.ok('R-ORDER', '%s:%s' % (q, norm(d)[:40]), where, 'receiver is the first element')
+                ctx.ok('R-ORDER', '%s:%s' % (q, txt[:40]), where, 'receiver is the first element')
             else:
                 ctx.violation(Finding('R-ORDER', rp, q, d, 'the receiver is not the first element of the stacked list: data are not in argument order'))
     # R-SUMLEN
